@@ -444,6 +444,7 @@ fn c09_length_set_plain_content() {
 #[kani::proof]
 #[kani::unwind(6)]
 #[kani::stub(std::string::String::from_utf8_lossy, lossy_stub)]
+#[kani::stub(crate::filters::png::decode_frame, rec_decode_frame)]
 fn c09_length_decompress() {
     let init: [u8; 3] = kani::any();
     let mut s = Stream::new(filtered_base(), init.to_vec());
@@ -620,6 +621,7 @@ fn c09_chain_parms_array_1() {
 #[kani::proof]
 #[kani::unwind(6)]
 #[kani::stub(std::string::String::from_utf8_lossy, lossy_stub)]
+#[kani::stub(crate::filters::png::decode_frame, rec_decode_frame)]
 fn c09_chain_parms_array_2() {
     let content: [u8; 3] = kani::any();
     let early: bool = kani::any();
@@ -670,6 +672,7 @@ fn c09_chain_order_a85_flate() {
 #[kani::proof]
 #[kani::unwind(6)]
 #[kani::stub(std::string::String::from_utf8_lossy, lossy_stub)]
+#[kani::stub(crate::filters::png::decode_frame, rec_decode_frame)]
 fn c09_chain_order_3() {
     let content: [u8; 3] = kani::any();
     let mut d = Dictionary::new();
@@ -689,6 +692,7 @@ fn c09_chain_order_3() {
 #[kani::proof]
 #[kani::unwind(6)]
 #[kani::stub(std::string::String::from_utf8_lossy, lossy_stub)]
+#[kani::stub(crate::filters::png::decode_frame, rec_decode_frame)]
 fn c09_chain_unknown_filter() {
     let content: [u8; 2] = kani::any();
     let mut d = Dictionary::new();
@@ -863,28 +867,48 @@ fn c09_decompress_bookkeeping() {
 // ---- LZW / Flate stage entry points called directly (no Filter dictionary involved) ----------------
 /// decompress_lzw: /EarlyChange is an INTEGER (ISO 32000-1 Table 8: 0 or 1, default 1) and selects the
 /// decoder variant; the tagged weezl stub makes the chosen variant observable
-/// (0xA5 = early change, 0xAA = late).
-#[kani::proof]
-#[kani::unwind(6)]
-#[kani::stub(std::string::String::from_utf8_lossy, lossy_stub)]
-fn c09_lzw_early_change_param() {
+/// (0xA5 = early change, 0xAA = late).  One harness per concrete dictionary shape.
+fn lzw_early_harness(value: Option<i64>) {
     let input: [u8; 3] = kani::any();
-    let e: i64 = kani::any();
-    kani::assume(e == 0 || e == 1);
-    let present: bool = kani::any();
     let mut d = Dictionary::new();
-    d.set("EarlyChange", int_or_null(present, e));
+    d.set("K", 1i64);
+    if let Some(e) = value {
+        d.set("EarlyChange", e);
+    }
     let r = Stream::decompress_lzw(&input, Some(&d));
-    let early = if present { e != 0 } else { true };
+    let early = match value {
+        Some(e) => e != 0,
+        None => true,
+    };
     let t = if early { 0xA5 } else { 0xAA };
     match &r {
         Ok(v) => assert!(v.len() == 3 && v[0] == input[0] ^ t && v[1] == input[1] ^ t && v[2] == input[2] ^ t, "EarlyChange parameter not honoured (integer 0 = late change, 1 or absent = early change)"),
         Err(_) => panic!("LZW stage failed"),
     }
-    kani::cover!(present && e == 0);
-    kani::cover!(!present);
+    kani::cover!(true);
     std::mem::forget(r);
     std::mem::forget(d);
+}
+#[kani::proof]
+#[kani::unwind(5)]
+#[kani::stub(std::string::String::from_utf8_lossy, lossy_stub)]
+#[kani::stub(crate::filters::png::decode_frame, rec_decode_frame)]
+fn c09_lzw_early_change_0() {
+    lzw_early_harness(Some(0));
+}
+#[kani::proof]
+#[kani::unwind(5)]
+#[kani::stub(std::string::String::from_utf8_lossy, lossy_stub)]
+#[kani::stub(crate::filters::png::decode_frame, rec_decode_frame)]
+fn c09_lzw_early_change_1() {
+    lzw_early_harness(Some(1));
+}
+#[kani::proof]
+#[kani::unwind(5)]
+#[kani::stub(std::string::String::from_utf8_lossy, lossy_stub)]
+#[kani::stub(crate::filters::png::decode_frame, rec_decode_frame)]
+fn c09_lzw_early_change_absent() {
+    lzw_early_harness(None);
 }
 
 /// decompress_zlib / decompress_lzw without parameters: output of the codec is passed through unchanged.
